@@ -7,6 +7,8 @@ import (
 	"encoding/hex"
 	"errors"
 	"fmt"
+	"net"
+	"net/netip"
 	"strings"
 
 	"golang.org/x/crypto/ssh"
@@ -106,7 +108,7 @@ func getCertificateInfo(c *x509.Certificate) (Info, error) {
 	}
 
 	for _, san := range c.IPAddresses {
-		sans = append(sans, san.String())
+		sans = append(sans, sanIPString(san))
 	}
 
 	for _, san := range c.URIs {
@@ -124,6 +126,18 @@ func getCertificateInfo(c *x509.Certificate) (Info, error) {
 	info.Attributes = append(info.Attributes, Attribute{"Signature algorithm", certSignatureAlgorithm(c)})
 
 	return info, nil
+}
+
+// sanIPString formats an iPAddress subject alternative name: 4 octets as a dotted
+// IPv4 address, 16 octets as IPv6 text. (net.IP.String prints a 16-octet IPv4-mapped
+// address exactly like the 4-octet IPv4 address it maps to.)
+func sanIPString(ip net.IP) string {
+	if len(ip) == net.IPv6len {
+		if a, ok := netip.AddrFromSlice(ip); ok {
+			return a.String()
+		}
+	}
+	return ip.String()
 }
 
 // certSignatureAlgorithm names the signature algorithm of c. An algorithm that
@@ -230,7 +244,7 @@ func getCSRInfo(c *x509.CertificateRequest) (Info, error) {
 	}
 
 	for _, san := range c.IPAddresses {
-		sans = append(sans, san.String())
+		sans = append(sans, sanIPString(san))
 	}
 
 	for _, san := range c.URIs {
